@@ -209,6 +209,7 @@ type eventList struct {
 	seqs    sequenceNumSlice
 	events  map[sequenceNum]*event
 	lastSeq sequenceNum
+	hasLast bool // hasLast is set once lastSeq holds an evicted sequence (0 is a valid sequence).
 	maxSize int
 	timeout time.Duration
 }
@@ -220,6 +221,23 @@ func newEventList(maxSize int, timeout time.Duration) *eventList {
 		maxSize: maxSize,
 		timeout: timeout,
 	}
+}
+
+// lostSince returns the number of sequence numbers skipped between the last
+// in-order evicted event and seq. Late arrivals and duplicates (sequences that
+// are not after the last in-order sequence) are never counted as lost and do
+// not move the last sequence backwards.
+func (l *eventList) lostSince(seq sequenceNum) int {
+	if !l.hasLast {
+		l.lastSeq, l.hasLast = seq, true
+		return 0
+	}
+	if seq == l.lastSeq || (sequenceNumSlice{seq, l.lastSeq}).Less(0, 1) {
+		return 0
+	}
+	lost := int(seq - l.lastSeq - 1)
+	l.lastSeq = seq
+	return lost
 }
 
 // remove the first event (lowest sequence) in the list.
@@ -250,10 +268,7 @@ func (l *eventList) Clear() ([]*event, int) {
 		seq = l.seqs[0]
 		event := l.events[seq]
 
-		if l.lastSeq > 0 {
-			lost += int(seq - l.lastSeq - 1)
-		}
-		l.lastSeq = seq
+		lost += l.lostSince(seq)
 		evicted = append(evicted, event)
 		l.remove()
 	}
@@ -309,10 +324,7 @@ func (l *eventList) CleanUp() ([]*event, int) {
 		event := l.events[seq]
 
 		if event.complete || size > l.maxSize || event.IsExpired() {
-			if l.lastSeq > 0 {
-				lost += int(seq - l.lastSeq - 1)
-			}
-			l.lastSeq = seq
+			lost += l.lostSince(seq)
 			evicted = append(evicted, event)
 			l.remove()
 			continue
